@@ -147,6 +147,18 @@ theorem wrap_lines (s : Bytes) (n : Nat) (hn : 0 < n) (h : ∀ c ∈ s, c ≠ 10
     (s ≠ [] → ∀ l ∈ splitLines (wrapForce s n), l ≠ []) :=
   wrapGo_lines s.length s n hn (Nat.le_refl _) h
 
+/-- the same for the residues of a record at the writer's width: at most 70 bytes per line,
+70 in every line but the last, no empty line unless the record has no residues -/
+theorem wrap_lines_res (r : Bytes) (hr : resOk r = true) :
+    (∀ l ∈ splitLines (wrapForce r 70), l.length ≤ 70) ∧
+    (∀ l ∈ (splitLines (wrapForce r 70)).dropLast, l.length = 70) ∧
+    (r ≠ [] → ∀ l ∈ splitLines (wrapForce r 70), l ≠ []) := by
+  refine wrap_lines r 70 (by decide) ?_
+  intro c hc
+  have := (List.all_eq_true.1 hr) c hc
+  simp at this
+  exact this.1.2
+
 /-- the wrapped text never ends in a line feed (the single `\n` after it comes from `WriteTo`) -/
 theorem wrap_no_trailing_newline (s : Bytes) (n : Nat) (h : ∀ c ∈ s, c ≠ 10) :
     (wrapForce s n).getLast? ≠ some 10 := wrapGo_getLast _ s n h
